@@ -32,7 +32,16 @@ def proc_case(draw, n, mle=True):
         prog = draw(qubits.entangling_program(2, max_heralded=1))
     else:
         prog = draw(qubits.qubit_program(n, max_gates=4 if n == 1 else 5, max_heralded=1, three=False))
-    wk = draw(st.sampled_from(["haar", "near", "perm", "same"]))
+    wk = draw(st.sampled_from(["haar", "near", "perm", "same", "close", "close"]))
+    if draw(st.integers(0, 3)) == 0:
+        # heralds declared directly on the base circuit: before / after the register or at arbitrary positions, also
+        # between the two rails of a qubit (as in C15)
+        prog = dict(prog)
+        if draw(st.booleans()):
+            prog["pad"] = draw(st.sampled_from([[1, 0], [0, 1], [1, 1], [2, 0]]))
+        else:
+            k = draw(st.integers(1, 2))
+            prog["hpos"] = sorted(draw(st.lists(st.integers(0, 2 * n + k - 1), unique=True, min_size=k, max_size=k)))
     return {"prog": prog, "target": [wk, draw(st.integers(0, 10 ** 6))], "mle": mle,
             "ulp_seed": draw(st.one_of(st.none(), st.integers(0, 10 ** 6))),
             "scale_seed": draw(st.one_of(st.none(), st.integers(0, 10 ** 6))),
@@ -134,6 +143,12 @@ def run_proc(case):
         W = qubits.make_unitary("near6", d, ws) @ V
     elif wk == "perm":
         W = qubits.make_unitary("permphase", d, ws)
+    elif wk == "close":
+        # a target a few milliradians away from V: the formula value differs from one in the sixth to fourth decimal
+        eps = [1e-3, 3e-3, 8e-3, 2e-2][ws % 4]
+        ph_ = np.ones(d, dtype=complex)
+        ph_[ws % d] = np.exp(1j * eps)
+        W = np.diag(ph_) @ V
     else:
         W = np.exp(0.3j) * V
     f2 = call("GateFidelity.process(W)", gf.process, W)
@@ -172,6 +187,9 @@ def run_proc(case):
         labels.append("non-hermitian")
     if qubits.herald_photons(prog):
         labels.append("heralded-gate")
+    if "pad" in prog or "hpos" in prog:
+        labels.append("heralds-declared-on-base-circuit")
+    labels.append("target:" + wk)
     return {"nontrivial": (not real) and (not sym), "labels": labels}
 
 
